@@ -187,6 +187,11 @@ pub(crate) struct SolverState {
     /// Activity score per package.
     name_activity: Vec<f32>,
 
+    /// The decision level at which the current call to `run_sat` started. Decisions up to and
+    /// including this level belong to earlier runs (the root requirements and previously accepted
+    /// soft requirements) and are never undone by conflict analysis of the current run.
+    run_starting_level: u32,
+
     /// Event counters that are only maintained for the verification hooks.
     #[cfg(feature = "verif-hooks")]
     verif_counters: verif::VerifCounters,
@@ -432,6 +437,7 @@ impl<D: DependencyProvider, RT: AsyncRuntime> Solver<D, RT> {
             .unwrap_or(0);
 
         let mut level = starting_level;
+        self.state.run_starting_level = starting_level;
 
         #[cfg(feature = "verif-hooks")]
         {
@@ -1489,8 +1495,11 @@ impl<D: DependencyProvider, RT: AsyncRuntime> Solver<D, RT> {
             );
         }
 
-        // Should revert at most to the root level
-        let target_level = back_track_to.max(1);
+        // Should revert at most to the first level of the current run. A soft requirement is
+        // subject to the decisions that were made before it: if the learnt clause would allow
+        // jumping back further, the literal is asserted at the first level of this run instead
+        // (all other literals of the clause are false below that level, so it is still unit).
+        let target_level = back_track_to.max(self.state.run_starting_level + 1);
         self.state.decision_tracker.undo_until(target_level);
 
         self.decay_activity_scores();
